@@ -1,6 +1,7 @@
 (* C16 over the GENERATED arms of cli/main.py, for every library behaviour, document, path and value. *)
 From Coq Require Import List String Bool. Import ListNotations. Open Scope string_scope.
-Require Import CliIR CliGen.
+From Cli Require Import CliIR.
+From Dyn Require Import CliGen.
 
 Section C16.
   Variable doc : Type.
